@@ -1442,11 +1442,22 @@ def app_history_checks(ctx, out, rng, n):
         kind = rng.choice(["align_to_ref", "align_to_ref", "smith_waterman", "progressive_align"])
         d, e = gen_gap(rng, edge=0.3)
         if kind == "align_to_ref":
-            mk = lambda: get_app("align_to_ref", ref_seq=rng.choice(["longest"]), insertion_penalty=d, extension_penalty=e)  # noqa: E731
+            # collections of one history either have unrelated names or (half of the histories) the SAME names with
+            # re-drawn sequences, so that state resolved from an earlier collection (a reference name, a length
+            # ranking) still designates a member of the later ones; the reference is 'longest' or one of the shared names
             inputs = []
+            shared_names = gen_names(rng, rng.randint(3, 5)) if rng.random() < 0.5 else None
             for _k in range(3):
-                kk = rng.randint(3, 5)
-                inputs.append(gen_seq_family(rng, kk, 12, DNA, gen_names(rng, kk)))
+                if shared_names:
+                    nm = list(shared_names)
+                    rng.shuffle(nm)
+                    inputs.append(gen_seq_family(rng, len(nm), 12, DNA, nm))
+                else:
+                    kk = rng.randint(3, 5)
+                    inputs.append(gen_seq_family(rng, kk, 12, DNA, gen_names(rng, kk)))
+            ref = rng.choice(shared_names) if shared_names and rng.random() < 0.3 else "longest"
+            bump(out, "app_history_a2r", ("shared-names" if shared_names else "unrelated-names") + ":" + ("longest" if ref == "longest" else "named"))
+            mk = lambda: get_app("align_to_ref", ref_seq=ref, insertion_penalty=d, extension_penalty=e)  # noqa: E731
         elif kind == "smith_waterman":
             mk = lambda: get_app("smith_waterman", insertion_penalty=d, extension_penalty=e)  # noqa: E731
             inputs = [dict(zip(("a", "b"), gen_pair(rng, DNA, 16)[1:])) for _ in range(3)]
@@ -1470,7 +1481,7 @@ def app_history_checks(ctx, out, rng, n):
                 hist.append(dict(seqs=seqs, limit=lim))
                 if got != want:
                     add_failure(out, "spec", f"{kind}: one app instance called repeatedly gives a different result than a fresh instance on the same input",
-                                dict(app=kind, d=d, e=e, calls=list(hist)), want, got, sig=f"app-history:differs-from-fresh-instance:{kind}")
+                                dict(app=kind, d=d, e=e, calls=list(hist), **(dict(ref=ref) if kind == "align_to_ref" else {})), want, got, sig=f"app-history:differs-from-fresh-instance:{kind}")
                     break
             else:
                 out["nontrivial"].add(("app-history", kind, str(inputs)[:300]))
@@ -1479,6 +1490,42 @@ def app_history_checks(ctx, out, rng, n):
                         sig=f"app-history:raised:{kind}")
         finally:
             pairwise.HIRSCHBERG_LIMIT = old
+
+
+def replay_app_history(inp):
+    """re-runs a recorded history of calls of ONE app instance; True if some call still differs from a fresh instance / raises"""
+    from cogent3 import get_app, make_unaligned_seqs
+    from cogent3.align import pairwise
+
+    kind = inp["app"]
+    if kind == "align_to_ref":
+        mk = lambda: get_app("align_to_ref", ref_seq=inp.get("ref", "longest"), insertion_penalty=inp["d"], extension_penalty=inp["e"])  # noqa: E731
+    elif kind == "smith_waterman":
+        mk = lambda: get_app("smith_waterman", insertion_penalty=inp["d"], extension_penalty=inp["e"])  # noqa: E731
+    else:
+        mk = lambda: get_app("progressive_align", "HKY85", unique_guides=True)  # noqa: E731
+
+    def norm(res):
+        if type(res).__name__ == "NotCompleted":
+            return dict(notcompleted=str(getattr(res, "message", ""))[-120:])
+        d = dict(rows=res.to_dict())
+        if "align_params" in getattr(res, "info", {}) and "sw_score" in res.info["align_params"]:
+            d["sw_score"] = round(float(res.info["align_params"]["sw_score"]), 9)
+        return d
+
+    old = pairwise.HIRSCHBERG_LIMIT
+    calls = inp.get("calls") or [dict(seqs=s, limit=old) for s in inp.get("inputs", [])]
+    try:
+        shared = mk()
+        for c in calls:
+            pairwise.HIRSCHBERG_LIMIT = c.get("limit", old)
+            if norm(shared(make_unaligned_seqs(c["seqs"], moltype="dna"))) != norm(mk()(make_unaligned_seqs(c["seqs"], moltype="dna"))):
+                return True
+    except Exception:  # noqa: BLE001
+        return True
+    finally:
+        pairwise.HIRSCHBERG_LIMIT = old
+    return False
 
 
 # --------------------------------------------------------------------------
@@ -1608,6 +1655,8 @@ def replay(ctx, data):
     elif sig.startswith("a2r:"):
         ctx.driver = _drv()
         check_align_to_ref(ctx, out, inp["seqs"], inp["ref"], inp.get("mat"), inp["d"], inp["e"], inp.get("moltype", "dna"))
+    elif sig.startswith("app-history:"):
+        return replay_app_history(inp)
     elif sig.startswith("pw-history:"):
         ctx.driver = _drv()
         run_history(ctx, out, inp["history"])
